@@ -7,6 +7,10 @@
  *   P <slot> <path>                       clockbound_open into a slot that stays open
  *   Q <slot> <rs> <rns> <ms> <mns>        clockbound_now on an open slot
  *   L <slot> <n> <rs> <rns> <ms> <mns>    clockbound_now n times on an open slot, print the last outcome
+ *   X <slotA> <slotB> <rs> <rns> <ms> <mns>   clockbound_now on A, then on B, and only then look at what A returned
+ *   W <slot> <path> <ms> <rs> <rns> <ms> <mns>  a thread of this program plays a daemon that never pauses (it bumps the
+ *                                         generation of <path> as fast as it can) while clockbound_now is called on the
+ *                                         slot until a call gives up (retry budget) or <ms> have passed; then the thread stops
  *   R <slot>                              clockbound_close the slot
  *   M                                     print the number of open file descriptors and of memory mappings
  *   F <call> <nth> <errno>                the nth (0-based) open (0) / read (1) / mmap (2) made from now on fails once
@@ -15,6 +19,8 @@
  */
 #define _GNU_SOURCE
 #include <dirent.h>
+#include <pthread.h>
+#include <stdint.h>
 #include <errno.h>
 #include <fcntl.h>
 #include <stdarg.h>
@@ -76,6 +82,36 @@ ssize_t read(int fd, void *buf, size_t n) {
 void *mmap(void *addr, size_t len, int prot, int flags, int fd, off_t off) {
         if (f_hit(2)) return MAP_FAILED;
         return (void *)syscall(SYS_mmap, addr, len, prot, flags, fd, off);
+}
+
+static volatile int w_stop, w_call_done;
+static uint16_t *w_gen;
+/* A daemon that dies in the middle of an update, over and over: publish (even generation), begin the next update
+ * (odd generation) a moment later, and stay there until the client's current call has returned. A call whose first
+ * look fell into the even moment then faces an update that never ends. */
+static void *w_thread(void *arg) {
+        (void)arg;
+        uint16_t g = __atomic_load_n(w_gen, __ATOMIC_RELAXED);
+        unsigned spin = 1;
+        while (!w_stop) {
+                g = (uint16_t)((g | 1) + 1);
+                if (g == 0) g = 2;
+                __atomic_store_n(w_gen, g, __ATOMIC_RELEASE);
+                for (volatile unsigned i = 0; i < spin; i++) { }
+                spin = spin % 64 + 1;
+                __atomic_store_n(w_gen, (uint16_t)(g | 1), __ATOMIC_RELEASE);
+                while (!w_call_done && !w_stop) { }
+                w_call_done = 0;
+        }
+        g = (uint16_t)((g | 1) + 1);
+        if (g == 0) g = 2;
+        __atomic_store_n(w_gen, g, __ATOMIC_RELEASE);
+        return NULL;
+}
+static double real_s(void) {
+        struct timespec ts;
+        syscall(SYS_clock_gettime, CLOCK_MONOTONIC, &ts);
+        return ts.tv_sec + ts.tv_nsec / 1e9;
 }
 
 static void print_err(const char *what, const clockbound_err *e) {
@@ -144,6 +180,52 @@ int main(void) {
                         v_on = 0;
                         if (e) print_err("now", e);
                         else printf("now ok %lld %lld %lld %lld %d\n", (long long)res.earliest.tv_sec, (long long)res.earliest.tv_nsec, (long long)res.latest.tv_sec, (long long)res.latest.tv_nsec, (int)res.clock_status);
+                        fflush(stdout);
+                        continue;
+                }
+                if (line[0] == 'X') {
+                        int a, b; long long rs, rns, ms, mns;
+                        if (sscanf(line + 2, "%d %d %lld %lld %lld %lld", &a, &b, &rs, &rns, &ms, &mns) != 6 || a < 0 || a >= 16 || b < 0 || b >= 16 || !slots[a] || !slots[b]) { printf("bad\n"); fflush(stdout); continue; }
+                        clockbound_now_result ra, rb;
+                        v_real.tv_sec = rs; v_real.tv_nsec = rns; v_mono.tv_sec = ms; v_mono.tv_nsec = mns;
+                        v_fail_errno = 0; v_fail_clk = -1;
+                        v_on = 1;
+                        const clockbound_err *ea = clockbound_now(slots[a], &ra);
+                        const clockbound_err *eb = clockbound_now(slots[b], &rb);
+                        v_on = 0;
+                        /* each context is its own: what the first call returned is still the first call's */
+                        printf("x A:%d/%d B:%d/%d\n", ea ? (int)ea->kind : 0, ea ? ea->sys_errno : 0, eb ? (int)eb->kind : 0, eb ? eb->sys_errno : 0);
+                        fflush(stdout);
+                        continue;
+                }
+                if (line[0] == 'W') {
+                        int slot, budget_ms; char path[4096]; long long rs, rns, ms, mns;
+                        if (sscanf(line + 2, "%d %4095s %d %lld %lld %lld %lld", &slot, path, &budget_ms, &rs, &rns, &ms, &mns) != 7 || slot < 0 || slot >= 16 || !slots[slot]) { printf("bad\n"); fflush(stdout); continue; }
+                        int fd = (int)syscall(SYS_openat, AT_FDCWD, path, O_RDWR, 0);
+                        void *m = fd >= 0 ? (void *)syscall(SYS_mmap, NULL, 72, PROT_READ | PROT_WRITE, MAP_SHARED, fd, 0) : MAP_FAILED;
+                        if (m == MAP_FAILED) { printf("bad map\n"); fflush(stdout); continue; }
+                        w_gen = (uint16_t *)((char *)m + 14);
+                        w_stop = 0; w_call_done = 0;
+                        pthread_t th;
+                        pthread_create(&th, NULL, w_thread, NULL);
+                        clockbound_now_result res;
+                        v_real.tv_sec = rs; v_real.tv_nsec = rns; v_mono.tv_sec = ms; v_mono.tv_nsec = mns;
+                        v_fail_errno = 0; v_fail_clk = -1;
+                        v_on = 1;
+                        double t0 = real_s();
+                        long calls = 0; int gave_up = 0;
+                        while (real_s() - t0 < budget_ms / 1000.0) {
+                                const clockbound_err *e = clockbound_now(slots[slot], &res);
+                                w_call_done = 1;
+                                calls++;
+                                if (e && e->kind == CLOCKBOUND_ERR_SEGMENT_NOT_INITIALIZED) { gave_up = 1; break; }
+                        }
+                        v_on = 0;
+                        w_stop = 1;
+                        pthread_join(th, NULL);
+                        syscall(SYS_munmap, m, 72);
+                        syscall(SYS_close, fd);
+                        printf("w gave_up=%d calls=%ld\n", gave_up, calls);
                         fflush(stdout);
                         continue;
                 }
